@@ -42,6 +42,19 @@ def second_opinion(solver, timeout_ms):
   return None, None
 
 
+def _has_quantifier(e, _seen=None):
+  todo, seen = [e], set()
+  while todo:
+    x = todo.pop()
+    if x.get_id() in seen:
+      continue
+    seen.add(x.get_id())
+    if z3.is_quantifier(x):
+      return True
+    todo.extend(x.children())
+  return False
+
+
 def retry(solver, timeout_ms):
   """Portfolio for a query z3 left `unknown`: fresh z3 solvers on the same
   assertions with other seeds / quantifier strategies, then cvc5.
@@ -49,10 +62,21 @@ def retry(solver, timeout_ms):
   Returns (z3.unsat | z3.sat | None, backend, model | None).  `sat` is only
   accepted from z3 (with a model)."""
   assertions = solver.assertions()
+  # Quantifier-free subset first: dropping assumptions is sound for `unsat`
+  # (never used for `sat`), and many goals do not need the quantified facts
+  # that make the full query hard.
+  qf = [a for a in assertions if not _has_quantifier(a)]
+  if len(qf) < len(assertions):
+    s0 = z3.Solver()
+    s0.set('timeout', int(min(timeout_ms, 4000)))
+    s0.add(qf)
+    if s0.check() == z3.unsat:
+      STATS['z3'] += 1
+      return z3.unsat, 'z3/qf-subset', None
   variants = [
       {'smt.random_seed': 1},
       {'smt.random_seed': 7, 'smt.mbqi': False},
-      {'smt.random_seed': 3, 'smt.ematching': True, 'smt.mbqi': True, 'smt.qi.eager_threshold': 100},
+      {'smt.random_seed': 3, 'smt.ematching': True, 'smt.mbqi': True, 'smt.qi.eager_threshold': 100.0},
       {'smt.random_seed': 11, 'smt.arith.solver': 2},
   ]
   for k, opts in enumerate(variants):
@@ -63,8 +87,11 @@ def retry(solver, timeout_ms):
         s2.set(key, val)
       except z3.Z3Exception:
         pass
-    s2.add(assertions)
-    r = s2.check()
+    try:
+      s2.add(assertions)
+      r = s2.check()
+    except z3.Z3Exception:
+      continue
     if r == z3.unsat:
       STATS['z3'] += 1
       return z3.unsat, f'z3/v{k + 1}', None
